@@ -112,21 +112,32 @@ type flavour struct {
 	reader    func(hosts source.RegistryHosts) source.GetSources
 }
 
+// The writers and readers are called through function variables so that the compiler
+// cannot inline them into package main: closures of an inlined function are named after
+// the caller ("main.init.func1.AppendDefaultLabelsHandlerWrapper.1.1") and the race-report
+// attribution of vf (by module-qualified function name) would not recognise them.
+var (
+	appendDefaultLabels = source.AppendDefaultLabelsHandlerWrapper
+	appendExtraLabels   = source.AppendExtraLabelsHandler
+	fromDefaultLabels   = source.FromDefaultLabels
+	fromCRILabels       = service.VerifSourceFromCRILabels
+)
+
 var flavours = []*flavour{
 	{
 		name: "default", refKey: defRefKey, digestKey: defDigestKey, layersKey: defLayersKey,
 		wrap: func(ref string, prefetch int64) func(images.Handler) images.Handler {
-			return source.AppendDefaultLabelsHandlerWrapper(ref, prefetch)
+			return appendDefaultLabels(ref, prefetch)
 		},
-		reader: source.FromDefaultLabels,
+		reader: func(h source.RegistryHosts) source.GetSources { return fromDefaultLabels(h) },
 	},
 	{
 		name: "cri", refKey: snapshotters.TargetRefLabel, digestKey: snapshotters.TargetLayerDigestLabel, layersKey: snapshotters.TargetImageLayersLabel,
 		extraKeys: []string{snapshotters.TargetManifestDigestLabel},
 		wrap: func(ref string, prefetch int64) func(images.Handler) images.Handler {
-			return source.AppendExtraLabelsHandler(prefetch, snapshotters.AppendInfoHandlerWrapper(ref))
+			return appendExtraLabels(prefetch, snapshotters.AppendInfoHandlerWrapper(ref))
 		},
-		reader: service.VerifSourceFromCRILabels,
+		reader: func(h source.RegistryHosts) source.GetSources { return fromCRILabels(h) },
 	},
 }
 
@@ -1307,6 +1318,10 @@ func body(r *vf.Run) {
 		concChild(r)
 		return
 	}
+	if r.Child == "cwrite" {
+		cwriteChild(r)
+		return
+	}
 	if pf := os.Getenv("VERIF_C20_PROF"); pf != "" { // developer aid only
 		if f, err := os.Create(pf); err == nil {
 			_ = pprof.StartCPUProfile(f)
@@ -1349,6 +1364,8 @@ func body(r *vf.Run) {
 	r.Logf("main stage done (%d manifests)", n)
 	concStage(r)
 	r.Logf("conc stage done")
+	cwriteStage(r)
+	r.Logf("cwrite stage done")
 	l3Stage(r)
 	r.Logf("l3 stage done")
 	r.Assume("containerd v2.2.3 images.Children/IsLayerType, snapshots.FilterInheritedLabels, labels.Validate, reference.Parse and go-digest digest.Parse are the trusted definition of enumeration order, layer media types, label validity and well-formedness")
